@@ -248,6 +248,27 @@ Proof.
   repeat constructor; cbn; intros; f_equal; lia.
 Qed.
 
+(* ---- layout independence: the array arguments are flattened in C (logical index) order, scheduled as flat rows and the
+   flat result is reshaped in C order; then element (r, c0) of the multi-process result is g of the input VALUES at (r, c0),
+   under every interleaving - nothing else about the inputs (strides, memory order) enters *)
+Theorem C15_reshaped_result_elementwise : forall (V W : Type) (g : V -> V -> W) (a1 a2 : Z -> Z -> V) (d : W) rows cols c nw sched,
+  wf c -> (1 <= nw)%nat -> workers_below nw sched -> all_done nw (run c sched) ->
+  0 < cols -> n c = rows * cols ->
+  forall r c0, 0 <= r < rows -> 0 <= c0 < cols ->
+  nth (Z.to_nat (r * cols + c0))
+      (result_array (fun k => g (flat_C cols a1 k) (flat_C cols a2 k)) d (n c) (wdone (run c sched))) d
+  = g (a1 r c0) (a2 r c0).
+Proof. intros V W. exact (@reshaped_result V W). Qed.
+Print Assumptions C15_reshaped_result_elementwise.
+(* flattening in MEMORY order instead (ravel(order='K') of a Fortran-ordered array) while reshaping in C order is
+   refuted: a 2 x 3 input, element (0, 1) of the result is then computed from input element (1, 0) *)
+Theorem C15_memory_order_flatten_refuted : exists (a : Z -> Z -> Z) rows cols r c0,
+  0 <= r < rows /\ 0 <= c0 < cols /\
+  nth (Z.to_nat (r * cols + c0)) (single_process (flat_C cols a) (rows * cols)) 0 = a r c0 /\
+  nth (Z.to_nat (r * cols + c0)) (single_process (flat_F rows a) (rows * cols)) 0 <> a r c0.
+Proof. exists (fun i j => 10 * i + j), 2, 3, 0, 1. vm_compute. repeat split; discriminate. Qed.
+Print Assumptions C15_memory_order_flatten_refuted.
+
 (* the guard n < 2^(bits-1) is needed: with 32-bit counters (ctypes.c_int) and n = 2^32 + 3 the single worker
    receives slice(0, 3) and returns; items 3 .. n-1 are never handed out *)
 Theorem C15_counter_width_needed :
